@@ -1,7 +1,9 @@
 import Pywbem.Model.CimJson
 import Pywbem.Model.Envelope
+import Pywbem.Model.Transport
+import Pywbem.Model.Wire
 import Pywbem.Generated.RspTables
-open Lean Pywbem.Proto Pywbem.Model Pywbem.Model.CimJson Pywbem.Model.XmlText Pywbem.Model.Envelope
+open Lean Pywbem.Proto Pywbem.Model Pywbem.Model.CimJson Pywbem.Model.XmlText Pywbem.Model.Envelope Pywbem.Model.Transport
 
 /-! C02 driver.  ops:
   {"op":"rsp","spec":{kind,meth,hasRet,hasOut,post,instLevel,returnClass},"http":{"status":n,"headers":[[k,v]…]},
@@ -51,11 +53,11 @@ def convMismatches (j : Json) : Nat :=
   t1.length + t2.length
 
 def envCodecOfJson (j : Json) : EnvCodec :=
-  let uris : List (Str × Bool) := (getArr j "uris").filterMap (fun e => match e with
-    | .arr a => some ((jsonToChars? (a[0]!)).getD [], match a[1]! with | .bool b => b | _ => false)
+  let uris : List (Str × Option Path) := (getArr j "uris").filterMap (fun e => match e with
+    | .arr a => some ((jsonToChars? (a[0]!)).getD [], match a[1]! with | .null => none | p => some (pathOfJson p))
     | _ => none)
   { toDecCodec := Resp.concreteCodec (decCodecOfJson j),
-    wbemUriOk := fun s => match uris.find? (fun e => e.1 == s) with | some e => e.2 | none => false }
+    wbemUri := fun s => match uris.find? (fun e => e.1 == s) with | some e => e.2 | none => none }
 
 def postOfJson (j : Json) : Post :=
   let il := (getBool j "instLevel").getD true
@@ -116,7 +118,8 @@ def resToJson : Res → Json
       ("qrcObj", match qrc with | some c => clsToJson c | none => Json.null)]
   | .pullP l eos ctx => Json.mkObj [("k", "pull"), ("items", strsJ (l.map pathKind)), ("eos", eos),
       ("ctx", optStrJ ctx), ("qrc", false), ("objs", arrJ pathToJson l), ("qrcObj", Json.null)]
-  | .invoke rvNone outs => Json.mkObj [("k", "invoke"), ("rvNone", rvNone), ("outs", Json.arr (outs.map strJ).toArray)]
+  | .invoke rv outs => Json.mkObj [("k", "invoke"), ("rv", valToJson rv),
+      ("outs", Json.arr (outs.map (fun (p : Str × Val) => Json.arr #[strJ p.1, valToJson p.2])).toArray)]
 
 /-- which VersionError subclass parse_cim / parse_message raise (class-name detail of `.versionError`) -/
 def versionKind (t : Xml) : String :=
@@ -126,6 +129,23 @@ def versionKind (t : Xml) : String :=
     else if !startsWith (getAttrD as "DTDVERSION" "") "2." then "DTDVersionError"
     else "ProtocolVersionError"
   | _ => "VersionError"
+
+def u3OfJson (j : Json) : U3Exc :=
+  { isMaxRetry := (getBool j "isMaxRetry").getD false, className := (getChars j "className").getD [],
+    arg0 := getOptChars j "arg0" }
+
+def postOutcomeOfJson (j : Json) : PostOutcome :=
+  match getStr j "lib" with
+  | some "requests" =>
+    let k : ReqKind := match getStr j "kind" with
+      | some "ssl" => .ssl | some "readTimeout" => .readTimeout | some "retry" => .retry | _ => .other
+    let a := getField j "arg"
+    let arg : ReqArg := match getStr a "t" with
+      | some "missing" => .missing
+      | some "u3" => .u3 (u3OfJson (getField a "e"))
+      | _ => .str ((getChars a "s").getD [])
+    .requestsExc k arg
+  | _ => .urllib3Exc (u3OfJson (getField j "e"))
 
 def FUEL : Nat := 40
 
@@ -149,6 +169,26 @@ def handle (j : Json) : Json :=
       | _, _ => Json.null
     Json.mkObj [("out", out), ("req", o.hasRequestData), ("resp", o.hasResponseData), ("vk", vk),
       ("leak", o.isLeak), ("convMismatch", convMismatches (getField j "codec"))]
+  | some "rspText" =>
+    -- like "rsp", but the body arrives as text and is parsed by XmlParse.par; answers the tree too
+    let C := envCodecOfJson (getField j "codec")
+    match specOfJson (getField j "spec") with
+    | none => Json.mkObj [("bad", "unknown operation")]
+    | some spec =>
+    let h := httpOfJson (getField j "http")
+    let text := (getChars j "text").getD []
+    let tree := Pywbem.Model.XmlParse.par text
+    let o := Pywbem.Model.Wire.operationText C FUEL spec (.response h) text
+    let out := match o.res with
+      | .ok r => Json.mkObj [("ok", resToJson r)]
+      | .error e => e.toJson
+    Json.mkObj [("out", out), ("parsed", tree.isSome),
+      ("tree", match tree with | some t => xmlToJson t | none => Json.null)]
+  | some "transport" =>
+    let C := envCodecOfJson (getField j "codec")
+    match wbemRequest C (postOutcomeOfJson (getField j "exc")) with
+    | .ok _ => Json.mkObj [("out", Json.mkObj [("ok", Json.null)])]
+    | .error e => Json.mkObj [("out", e.toJson)]
   | some "http" =>
     match httpLayer (httpOfJson (getField j "http")) with
     | .ok _ => Json.mkObj [("out", Json.mkObj [("ok", Json.null)])]
